@@ -245,6 +245,12 @@ func c07Alias(concurrent bool) {
 	root.reportRegistry()
 	root.reportRegistry()
 	verifrt.Assert("c07.alias.delivered-exactly-once", sumNamed(&rec.vReporter, "x") == v0+v1+v2)
+	// whichever spelling a scope was (re-)obtained through, what reaches the reporter is sanitized
+	for _, c := range rec.calls {
+		if c.name == "x" {
+			verifrt.Assert("c07.alias.delivered-tags-are-sanitized", len(c.tags) == 1 && verifrt.EqStr(c.tags["k"], root.sanitizer.Value(sp1)))
+		}
+	}
 	s2.Counter("x").Inc(v3)
 	root.reportRegistry()
 	verifrt.Assert("c07.alias.scope-after-close-stays-registered", sumNamed(&rec.vReporter, "x") == v0+v1+v2+v3)
